@@ -110,7 +110,7 @@ def gen_spec(rng, cls, shape=None, focus=None):
       kw["use_stochastic_rounding"] = True
     if P(0.4):
       kw["qnoise_factor"] = rng.pick(QN)
-    if not hs and P(0.2):
+    if P(0.2):
       kw["use_ste"] = False
     if hs:
       if P(0.5):
@@ -358,6 +358,7 @@ OPTION_PROBES = {
         ("bits", 4), ("integer", 2), ("symmetric", 1), ("alpha", 0.5),
         ("use_stochastic_rounding", True), ("qnoise_factor", 0.5),
         ("relu_shift", 2), ("relu_upper_bound", 4),
+        ("use_ste", False, {"qnoise_factor": 0.5}),
     ],
 }
 
